@@ -397,13 +397,14 @@ Fixpoint rp_fsr_data (fuel : nat) (d : sigdef) (w : rp_w) (t : wm_track) (f : wm
           let ec := fm_u32_at OFFSETOF_payload_entry_count p in
           let f1 := wm_f_set_block f false (fm_i64_at 0 p) ec [] in
           let next := fm_item_next (wm_ck_hdr (rp_cur s2)) in
-          if skip then rp_fsr_data fu d w1 t f1 next false
+          (* jls_raw_seek_end before jls_core_fsr_summary1 (since /repo f440422): a flush appends *)
+          let w1e := rp_w_set_io w1 (rp_seek_end (rp_w_io w1)) in
+          if skip then rp_fsr_data fu d w1e t f1 next false
           else
-            let w2 := if sg_spd d <? ec then rp_w_fault w1 RpF_heap
-                      else if len - SIZEOF_payload_header <? (ec * bits + 7) / 8 then rp_w_fault w1 RpF_buf else w1 in
+            let w2 := if sg_spd d <? ec then rp_w_fault w1e RpF_heap
+                      else if len - SIZEOF_payload_header <? (ec * bits + 7) / 8 then rp_w_fault w1e RpF_buf else w1e in
             let samples := rp_unpack bits ec (rp_skip SIZEOF_payload_header p) in
             let '(w3, t3, f3) := rp_unfx w2 (wm_fsr_summary1 summ1 summN d offset samples (rp_fx w2 t f1)) in
-            (* no jls_raw_seek_end before this call: a flush writes its chunks where the raw stands *)
             let inplace := rp_w_inplace w2 in
             let flushed := negb (Nat.eqb (length (rp_log w3)) (length (rp_log w2))) in
             let w3a := if inplace && flushed then rp_w_set_uninit w3 else w3 in
@@ -500,6 +501,20 @@ Definition rp_scan (f : list N) : (rp_rd * N) + rp_rd :=
           if negb (rc4 =? 0) then inl (rp_rd_set_io c3 s4, JLS_ERROR_EMPTY)
           else inr (rp_rd_set_io c3 s4).
 
+(* the end of the repair branch: jls_core_wr_end, jls_raw_close, jls_raw_open r, the final phase.
+   jls_core_wr_end: no jls_raw_seek_end before it.  The END header goes to raw->offset, which is the end of the
+   file only if the last FSR signal's repair left it there *)
+Definition rp_repair_end (w9 : rp_w) : rp_result :=
+  let w9a := if rp_w_inplace w9 then rp_w_set_uninit w9 else w9 in
+  let b9 := rp_wm_base w9a 0 in
+  let end_off := wm_offset (wm_b_raw b9) in
+  let b10 := wm_core_wr_end b9 in
+  let w10 := rp_commit w9a (wm_b_set_raw b10 (wm_raw_close (wm_b_raw b10))) in
+  let '(s11, rc11) := rp_raw_open (rp_w_io w10) false in
+  let w11 := rp_w_set_io w10 s11 in
+  if negb (rc11 =? 0) then rp_res_end rc11 w11 true end_off
+  else rp_finish w11 true end_off.
+
 (* the repair branch of jls_rd_open *)
 Definition rp_repair (c : rp_rd) : rp_result :=
   let pos := rp_offset (rp_r (rp_io_ c)) in
@@ -534,18 +549,15 @@ Definition rp_repair (c : rp_rd) : rp_result :=
           else
             let '(w9, rc9) := rp_repair_fsr_all rp_signal_ids w8 in
             if negb (rc9 =? 0) then rp_exit w9 rc9
-            else
-              (* jls_core_wr_end: no jls_raw_seek_end before it.  The END header goes to raw->offset, which is the
-                 end of the file only if the last FSR signal's repair left it there *)
-              let w9a := if rp_w_inplace w9 then rp_w_set_uninit w9 else w9 in
-              let b9 := rp_wm_base w9a 0 in
-              let end_off := wm_offset (wm_b_raw b9) in
-              let b10 := wm_core_wr_end b9 in
-              let w10 := rp_commit w9a (wm_b_set_raw b10 (wm_raw_close (wm_b_raw b10))) in
-              let '(s11, rc11) := rp_raw_open (rp_w_io w10) false in
-              let w11 := rp_w_set_io w10 s11 in
-              if negb (rc11 =? 0) then rp_res_end rc11 w11 true end_off
-              else rp_finish w11 true end_off.
+            else rp_repair_end w9.
+
+(* "properly closed" as the reader can see it: the last 32 bytes of the file are a CRC-valid END chunk header
+   (jls_core_wr_end is the last chunk a graceful close appends) at an 8-aligned offset *)
+Definition rp_ends_with_end (f : list N) : bool :=
+  let n := rp_len f in
+  let h := rp_skip (n - SIZEOF_chunk_header) f in
+  (64 <=? n) && (n <? rp_two63) && (n mod 8 =? 0) && fm_ch_crc_ok h
+  && (fm_tag (fm_ch_fields h) =? JLS_TAG_END) && (fm_payload_length (fm_ch_fields h) =? 0).
 
 Definition rp_open (f : list N) : rp_result :=
   match rp_scan f with
